@@ -8,7 +8,17 @@
 (*                                                                         *)
 (* A message is a set of element *kinds* (one per child element / root     *)
 (* attribute the class knows; element variants that exclude each other     *)
-(* share a `slot`).  The table KT is the oracle of C17: it assigns every   *)
+(* share a `slot`).  The VALUE of a field is a dimension of the model      *)
+(* wherever the code can branch on it: a slot has one kind per value class *)
+(* -- every QXmpp::EncryptionMethod of the XEP-0380 marker, every message  *)
+(* type, chat state, marker, JMI and call-invite element, both delay       *)
+(* flavours, and the optional sub-fields that have their own `if` in the   *)
+(* serializer (stanza-id by, MIX jid/nick, thread parent, oob description, *)
+(* invitation password/reason, marker thread, spoiler hint, reply to).     *)
+(* The placement of a kind never depends on the value of another kind:     *)
+(* that is part of the property (a <body/> is sensitive whatever the       *)
+(* encryption marker says) and what the focus configurations probe.        *)
+(* The table KT is the oracle of C17: it assigns every                     *)
 (* kind the category the PROPERTY STATEMENT gives it -- routing data,      *)
 (* hints, ids, explicit fallback text, fallback markers -- and everything  *)
 (* else is conversational payload.  It is written from the statement and   *)
@@ -23,16 +33,18 @@
 (***************************************************************************)
 EXTENDS Naturals, Sequences, FiniteSets, TLC
 
-CONSTANTS MaxSet,     \* bound on the number of kinds set on one message
-          Ordered     \* TRUE: kinds are set in table order (one path per set)
+CONSTANTS MaxSet,     \* bound on the number of kinds set on top of the base
+          Ordered,    \* TRUE: kinds are set in table order (one path per set)
+          Bases       \* set of sets of kinds a behaviour may start from (focus); {{}} = none
 
 VARIABLES msg,        \* kinds set on the message (the user's setters)
+          base,       \* the kinds the behaviour started with (constant along a behaviour)
           phase,      \* "compose" | "split" | "done"
           pub, sens, all,   \* kinds emitted by toXml(ScePublic) / serializeExtensions(SceSensitive) / toXml(SceAll)
           rec,        \* kinds whose values a fresh message holds after parse(public) ; parseExtensions(sensitive)
           hist        \* behaviour export
 
-mvars == <<msg, phase, pub, sens, all, rec>>
+mvars == <<msg, base, phase, pub, sens, all, rec>>
 vars  == <<mvars, hist>>
 
 (* --- the table ---------------------------------------------------------- *)
@@ -50,6 +62,10 @@ KT == <<
   K("from",            "from",        "routing"),
   K("id",              "id",          "routing"),
   K("lang",            "lang",        "routing"),
+  K("typeNormal",      "type",        "routing"),   \* the type attribute (chat is the default and not a kind)
+  K("typeGroupchat",   "type",        "routing"),
+  K("typeHeadline",    "type",        "routing"),
+  K("typeError",       "type",        "routing"),
   K("error",           "error",       "routing"),
   K("addresses",       "addresses",   "routing"),   \* XEP-0033
   K("fallbackBody",    "fallbackBody", "fbtext"),
@@ -59,13 +75,24 @@ KT == <<
   K("hintNoCopy",      "hintNoCopy",  "hint"),
   K("hintStore",       "hintStore",   "hint"),
   K("stanzaId",        "stanzaId",    "id"),        \* XEP-0359
+  K("stanzaIdNoBy",    "stanzaId",    "id"),
   K("originId",        "originId",    "id"),
   K("mix",             "mix",         "routing"),   \* XEP-0369 <mix><jid/><nick/></mix>
-  K("eme",             "eme",         "hint"),      \* XEP-0380
+  K("mixJidOnly",      "mix",         "routing"),
+  K("mixNickOnly",     "mix",         "routing"),
+  K("emeCustom",       "eme",         "hint"),      \* XEP-0380, one kind per QXmpp::EncryptionMethod value
+  K("emeOtr",          "eme",         "hint"),      \*   (NoEncryption = the kind is not set;
+  K("emeLegacyOpenPgp", "eme",        "hint"),      \*    UnknownEncryption = a custom namespace with a name)
+  K("emeOx",           "eme",         "hint"),
+  K("emeOmemo0",       "eme",         "hint"),
+  K("emeOmemo1",       "eme",         "hint"),
+  K("emeOmemo2",       "eme",         "hint"),
   K("subject",         "subject",     "payload"),
   K("body",            "body",        "payload"),
   K("thread",          "thread",      "payload"),
+  K("threadNoParent",  "thread",      "payload"),
   K("oob",             "oob",         "payload"),   \* XEP-0066
+  K("oobNoDesc",       "oob",         "payload"),
   K("xhtml",           "xhtml",       "payload"),   \* XEP-0071
   K("stateActive",     "state",       "payload"),   \* XEP-0085
   K("stateInactive",   "state",       "payload"),
@@ -77,11 +104,13 @@ KT == <<
   K("receiptRequest",  "receiptRequest",  "payload"),
   K("attention",       "attention",   "payload"),   \* XEP-0224
   K("mucInvitation",   "mucInvitation", "payload"), \* XEP-0249
+  K("mucInvitationBare", "mucInvitation", "payload"),
   K("bob",             "bob",         "payload"),   \* XEP-0231
   K("replace",         "replace",     "payload"),   \* XEP-0308
   K("markable",        "markable",    "payload"),   \* XEP-0333
   K("markerReceived",  "marker",      "payload"),
   K("markerDisplayed", "marker",      "payload"),
+  K("markerDisplayedNoThread", "marker", "payload"),
   K("markerAcknowledged", "marker",   "payload"),
   K("jmiPropose",      "jmi",         "payload"),   \* XEP-0353
   K("jmiRinging",      "jmi",         "payload"),
@@ -91,12 +120,14 @@ KT == <<
   K("jmiFinish",       "jmi",         "payload"),
   K("attachTo",        "attachTo",    "payload"),   \* XEP-0367
   K("spoiler",         "spoiler",     "payload"),   \* XEP-0382
+  K("spoilerBare",     "spoiler",     "payload"),
   K("mixInvitation",   "mixInvitation", "payload"), \* XEP-0407
   K("trustMessage",    "trustMessage", "payload"),  \* XEP-0434
   K("reaction",        "reaction",    "payload"),   \* XEP-0444
   K("fileShare",       "fileShare",   "payload"),   \* XEP-0447
   K("fileSources",     "fileSources", "payload"),
   K("reply",           "reply",       "payload"),   \* XEP-0461
+  K("replyNoTo",       "reply",       "payload"),
   K("callInvite",      "callInvite",  "payload"),   \* XEP-0482
   K("callRetract",     "callInvite",  "payload"),
   K("callAccept",      "callInvite",  "payload"),
@@ -125,7 +156,7 @@ BothKinds      == {k \in Kinds : Part(k) = "Both"}
 SplitOnly      == {k \in Kinds : CatOf(k) = "fbtext"}   \* not an element of the unsplit message
 
 (* --- mechanism ----------------------------------------------------------- *)
-HeadKinds == {"to", "from", "id", "lang", "error", "addresses"}    \* written / read by toXml / QXmppStanza::parse only
+HeadKinds == {"to", "from", "id", "lang", "typeNormal", "typeGroupchat", "typeHeadline", "typeError", "error", "addresses"}    \* written / read by toXml / QXmppStanza::parse only
 BlockF == [k \in Kinds |-> CASE k \in HeadKinds        -> "head"
                              [] CatF[k] = "fbtext"     -> "pubonly"
                              [] CatF[k] = "fbmark"     -> "tail"
@@ -156,20 +187,29 @@ Accept(mode, k) == InMode(mode, Block(k))
 (* --- behaviour ------------------------------------------------------------ *)
 Log(r) == hist' = Append(hist, r)
 
+\* focus bases: every encryption-method value with the fallback body set / the real body set / both
+SlotKinds(sl) == {k \in Kinds : SlotOf(k) = sl}
+BasesNone == {{}}
+BasesEme  == {{e} \cup B : e \in SlotKinds("eme"), B \in {{"fallbackBody"}, {"body"}, {"fallbackBody", "body"}}}
+RECURSIVE SetSteps(_)
+SetSteps(B) == IF B = {} THEN <<>>
+               ELSE LET k == CHOOSE x \in B : \A y \in B : Idx(x) <= Idx(y)
+                    IN  <<[a |-> "Set", k |-> k]>> \o SetSteps(B \ {k})
+
 Init ==
-    /\ msg = {} /\ phase = "compose"
+    /\ \E B \in Bases : msg = B /\ base = B /\ hist = SetSteps(B)
+    /\ phase = "compose"
     /\ pub = {} /\ sens = {} /\ all = {} /\ rec = {}
-    /\ hist = <<>>
 
 Set(k) ==
     /\ phase = "compose"
-    /\ Cardinality(msg) < MaxSet
+    /\ Cardinality(msg \ base) < MaxSet
     /\ \A j \in msg : SlotOf(j) # SlotOf(k)
-    /\ Ordered => \A j \in msg : Idx(j) < Idx(k)
+    /\ Ordered => \A j \in msg \ base : Idx(j) < Idx(k)
     /\ k = "legacyDelay" => msg = {}      \* no setter: held only by a message that was parsed from one
     /\ msg' = msg \cup {k}
     /\ Log([a |-> "Set", k |-> k])
-    /\ UNCHANGED <<phase, pub, sens, all, rec>>
+    /\ UNCHANGED <<base, phase, pub, sens, all, rec>>
 
 Split ==
     /\ phase = "compose"
@@ -178,7 +218,7 @@ Split ==
     /\ sens' = Emit("Sensitive", msg)
     /\ all'  = Emit("All", msg)
     /\ Log([a |-> "Split"])
-    /\ UNCHANGED <<msg, rec>>
+    /\ UNCHANGED <<msg, base, rec>>
 
 Recover ==
     /\ phase = "split"
@@ -186,7 +226,7 @@ Recover ==
     \* rec: the kinds that are back *with their distinctive values* (a generated id is not one)
     /\ rec' = ({k \in pub : Accept("Public", k)} \cup {k \in sens : Accept("Sensitive", k)}) \ Implied(msg)
     /\ Log([a |-> "Recover"])
-    /\ UNCHANGED <<msg, pub, sens, all>>
+    /\ UNCHANGED <<msg, base, pub, sens, all>>
 
 Next == (\E k \in Kinds : Set(k)) \/ Split \/ Recover
 Spec == Init /\ [][Next]_vars
@@ -203,6 +243,8 @@ P_NoLeak(pubKinds, pubTokens) == O_NoLeak(pubKinds, pubTokens) = {}
 O_Partition(dom, cp, cs, ca) ==
     {k \in dom : k \notin BothKinds /\ k \notin SplitOnly /\ cp[k] + cs[k] # ca[k]}
 P_Partition(dom, cp, cs, ca) == O_Partition(dom, cp, cs, ca) = {}
+\*     ... and no distinctive value occurs in the raw text of both parts (fallback markers aside)
+O_TokBoth(pubTokens, sensTokens) == {k \in pubTokens \cap sensTokens : k \notin BothKinds}
 \* (3) parsing public then sensitive recovers the field values (fallback markers aside):
 \*     nothing that was set is lost, nothing that was not set appears
 O_Recover(S, r) == ((Effective(S) \ BothKinds) \ r) \cup ((r \ S) \ BothKinds)
@@ -221,7 +263,7 @@ TypeOK ==
     /\ Len(KT) = Cardinality(Kinds)
 
 Reinit ==
-    /\ msg' = {} /\ phase' = "compose"
+    /\ msg' = {} /\ base' = {} /\ phase' = "compose"
     /\ pub' = {} /\ sens' = {} /\ all' = {} /\ rec' = {}
     /\ hist' = <<>>
 
